@@ -24,6 +24,9 @@ CONSTANTS
   AllowTerm = %s
   AllowClose = %s
   AllowPop = %s
+  Adv = {}
+  AdvMoves = {}
+  MaxAdv = 0
   Dev = %s
   Enforced = %s
   Known = {}
@@ -75,3 +78,53 @@ def thorough_models(dev_names=()):
                       note='liveness under weak fairness: termination always completes, runs always quiesce'),
     ]
     return runs
+
+
+def adversary_model(name, maxadv, dev='{}', expect='ok', own=1, timeout=1800, note=''):
+    ''' Victim P (real), adversary plays A: every sequence of at most ``maxadv`` messages of the catalogue,
+    interleaved in every way with the victim's callbacks and with acknowledgements of its segments. '''
+    mod = '''---- MODULE %s ----
+EXTENDS TcpclSession
+McLens == {3}
+McMaxSend == [A |-> 0, P |-> %d]
+McSegMru == [A |-> 2, P |-> 2]
+McSegInit == [A |-> 2, P |-> 2]
+U(t, size) == Base(t, size)
+McMoves == {
+  [MCh EXCEPT !.t = "CH"],
+  [MCh EXCEPT !.magicok = FALSE],
+  [Base("INIT", 31) EXCEPT !.mru = 2, !.mrucls = "u8", !.xmrucls = "u64", !.nid = "adv"],
+  MSeg(7, 1, FALSE, FALSE, 0),
+  MSeg(8, 1, TRUE, TRUE, 1),
+  MSeg(9, 1, TRUE, FALSE, 2),
+  MSeg(9, 1, FALSE, TRUE, 0),
+  MAck(99, 1, 1),
+  [Base("REFUSE", 10) EXCEPT !.id = 99, !.reason = 2],
+  [Base("REFUSE", 10) EXCEPT !.id = 1, !.reason = 2],
+  MTerm(FALSE, 0),
+  [Base("UNKNOWN", 4) EXCEPT !.typ = 9],
+  Base("KA", 1)
+}
+====''' % (name, own)
+    cfg = '''SPECIFICATION Spec
+CONSTANTS
+  Lens <- McLens
+  MaxSend <- McMaxSend
+  SegMru <- McSegMru
+  SegInit <- McSegInit
+  Quanta = {"all"}
+  AllowTerm = {}
+  AllowClose = {}
+  AllowPop = FALSE
+  Adv = {"A"}
+  AdvMoves <- McMoves
+  MaxAdv = %d
+  Dev = %s
+  Enforced = {"C17"}
+  Known = {}
+  Diag = FALSE
+INVARIANT OK
+INVARIANT QuiescentOK
+CHECK_DEADLOCK FALSE
+''' % (maxadv, dev)
+    return ModelRun(name, cfg, name, expect=expect, module_text=mod, timeout=timeout, note=note)
